@@ -4,6 +4,7 @@ package main
 // modular calls and obligation generation.
 
 import (
+	"time"
 	"context"
 	"fmt"
 	"go/constant"
@@ -214,6 +215,8 @@ type Exec struct {
 	dynHeapSorts    map[string][]string
 	initMode        bool
 	killers         []*Obligation
+	deadline        time.Time
+	steps           int
 	noInits         bool
 	initRefs        int
 	relMode         bool
@@ -785,6 +788,11 @@ const maxPaths = 4000
 
 func (ex *Exec) execBlock(f *frame, st *State, b *ssa.BasicBlock, from *ssa.BasicBlock) {
 	if st.dead || ex.aborted != "" {
+		return
+	}
+	ex.steps++
+	if ex.steps%64 == 0 && !ex.deadline.IsZero() && time.Now().After(ex.deadline) {
+		ex.aborted = fmt.Sprintf("symbolic execution of %s exceeded its time budget (%s)", ex.fnKey, genBudget)
 		return
 	}
 	if li := f.loops[b]; li != nil {
